@@ -581,6 +581,17 @@ func c10Case(w *core.W, j int) {
 	if fn, ok := flipNonLetter(k.Key.Hdr.Name); ok {
 		alts = append(alts, alt{"key.owner-0x20-nonletter", sig, func() *dns.DNSKEY { kk := dns.Copy(k.Key).(*dns.DNSKEY); kk.Hdr.Name = fn; return kk }(), set})
 	}
+	// the same DNSKEY value used again after its public key was replaced in place by another key's
+	// (a long-lived table entry rolled over): Verify goes by what the value holds when it is called
+	if k2, err := getKey(alg, bits, zone.Pres(), 256, 7); err == nil && k2.Key.PublicKey != k.Key.PublicKey {
+		live := dns.Copy(k.Key).(*dns.DNSKEY)
+		if rr := set.build(); rr != nil && sig.Verify(live, rr) == nil {
+			live.PublicKey = k2.Key.PublicKey
+			s := dns.Copy(sig).(*dns.RRSIG)
+			s.KeyTag = live.KeyTag()
+			alts = append(alts, alt{"key.public-key-replaced-in-place", s, live, set})
+		}
+	}
 	rawSig, _ := base64.StdEncoding.DecodeString(sig.Signature)
 	nflips := 12
 	if w.Tier == "thorough" {
